@@ -615,3 +615,118 @@ def rule_train_init(model: Model, fshort: str, rule="TRAIN-INIT"):
                                       + (f" (it is bound from {[x for x in got if x]})" if any(got) else "")
                                       + f": with a guess whose ranks differ from the default the first reshape of the sweep fails or re-groups the data"))
     return obs
+
+
+# --------------------------------------------------------------------------- NORM-DIV (added after seed S5-C07-2)
+
+def rule_norm_division(model: Model, fshort: str, rule="NORM-DIV", func=None):
+    """A value that is divided by a norm (`n = tn.linalg.norm(X)` ... `Y / n`, `Y /= n`, also under `tn.log(n)`) is undefined for the zero tensor
+    unless the division is guarded by a test of that norm (an enclosing `if` whose test reads it, or an earlier guard clause that leaves).
+    Functions whose domain includes the zero tensor (norm, dot, sum) must not divide by an untested norm.  One obligation per division."""
+    import ast
+    from .model import norm
+    if func is None and not model.has_func(fshort):
+        return []
+    f = func if func is not None else _view(model, fshort)
+    norm_vars = {n.targets[0].id for n in ast.walk(f.node) if isinstance(n, ast.Assign) and len(n.targets) == 1 and isinstance(n.targets[0], ast.Name)
+                 and _is_norm_call(n.value)}
+    if not norm_vars:
+        return []
+    parents = {}
+    for a in ast.walk(f.node):
+        for c in ast.iter_child_nodes(a):
+            parents[id(c)] = a
+
+    def guarded(node, v):
+        cur = node
+        while id(cur) in parents:
+            par = parents[id(cur)]
+            if isinstance(par, (ast.If, ast.IfExp, ast.While)) and cur is not par.test and any(isinstance(x, ast.Name) and x.id == v for x in ast.walk(par.test)):
+                return True
+            for fld in ("body", "orelse"):
+                blk = getattr(par, fld, None)
+                if isinstance(blk, list) and cur in blk:
+                    for prev in blk[:blk.index(cur)]:
+                        if isinstance(prev, ast.If) and any(isinstance(x, ast.Name) and x.id == v for x in ast.walk(prev.test)) \
+                                and prev.body and isinstance(prev.body[-1], (ast.Return, ast.Raise, ast.Continue, ast.Break)):
+                            return True
+            cur = par
+        return False
+    obs = []
+    for n in ast.walk(f.node):
+        v = None
+        if isinstance(n, ast.BinOp) and isinstance(n.op, ast.Div) and isinstance(n.right, ast.Name) and n.right.id in norm_vars:
+            v = n.right.id
+        elif isinstance(n, ast.AugAssign) and isinstance(n.op, ast.Div) and isinstance(n.value, ast.Name) and n.value.id in norm_vars:
+            v = n.value.id
+        elif isinstance(n, ast.Call) and norm(n.func).rsplit(".", 1)[-1] in ("log", "log10", "log2") and n.args and isinstance(n.args[0], ast.Name) \
+                and n.args[0].id in norm_vars:
+            v = n.args[0].id
+        if v is None:
+            continue
+        ok = guarded(n, v)
+        k = f"{fshort}:{rule}:{norm(n)[:60]}"
+        obs.append(Ob(rule, k, OK if ok else VIOLATED, model.where(f, n), norm(n)[:90],
+                      f"the division by `{v}` is guarded by a test of it" if ok else
+                      f"`{norm(n)[:70]}` divides by (takes the logarithm of) the norm `{v}` with no test of it on the path: for the zero tensor "
+                      "the result is NaN (0/0) instead of 0"))
+    return obs
+
+
+# --------------------------------------------------------------------------- RESIDUAL-GAUGE (added after seed S5-C12-2)
+
+def rule_residual_gauge(model: Model, fshort: str, rule="RESIDUAL-GAUGE"):
+    """The first half sweep re-orthogonalises the random residual train core by core (`q, _ = QR(reshape(z[k], [rz[k], -1]).t())`, `rz[k] =
+    q.shape[1]`) *without* carrying the R factor to the neighbour: that is only shape-consistent when no rank can shrink, i.e. when
+    rz[k] <= N[k] * rz[k+1] already holds for every k.  A random train with the requested ranks does not satisfy that for small trailing
+    modes; the routines establish it by `z_cores, rz = rl_orthogonal(z_cores, rz, ...)` before the sweeps.  The rule: every train whose
+    cores come from `random(...)` is passed through rl_orthogonal (cores and rank list re-bound together) before the first sweep loop."""
+    import ast
+    from .model import norm
+    f = _view(model, fshort)
+    body = f.node.body
+    obs = []
+    # names bound (directly or via `.cores`) to a random train
+    rand_objs, rand_cores = set(), {}
+    for i, s in enumerate(body):
+        if not (isinstance(s, ast.Assign) and len(s.targets) == 1 and isinstance(s.targets[0], ast.Name)):
+            continue
+        v = s.value
+        def is_random(e):
+            return isinstance(e, ast.Call) and norm(e.func).rsplit(".", 1)[-1] in ("random", "randn")
+        if is_random(v):
+            rand_objs.add(s.targets[0].id)
+        src = v.value if isinstance(v, ast.Attribute) and v.attr == "cores" else None
+        if src is not None and ((isinstance(src, ast.Name) and src.id in rand_objs) or is_random(src)):
+            rand_cores[s.targets[0].id] = (i, s)
+        elif isinstance(v, ast.ListComp) and (any(is_random(x) for x in ast.walk(v.elt))
+                                              or any(isinstance(x, ast.Attribute) and x.attr == "cores" and isinstance(x.value, ast.Name) and x.value.id in rand_objs
+                                                     for g in v.generators for x in ast.walk(g.iter))):
+            rand_cores.setdefault(s.targets[0].id, (i, s))      # [randn(shape_k) for k ...] / [reshape(c, ..) for c in z_tt.cores]
+    first_loop = min([j for j, t in enumerate(body) if isinstance(t, (ast.For, ast.While))] or [len(body)])
+    for nm, (i, s) in rand_cores.items():
+        if i >= first_loop:
+            continue
+        ok = False
+        other = None
+        for j in range(i + 1, first_loop):
+            t = body[j]
+            if isinstance(t, ast.Assign) and isinstance(t.targets[0], ast.Tuple) and len(t.targets[0].elts) == 2 and isinstance(t.value, ast.Call) \
+                    and isinstance(t.targets[0].elts[0], ast.Name) and t.targets[0].elts[0].id == nm \
+                    and t.value.args and isinstance(t.value.args[0], ast.Name) and t.value.args[0].id == nm:
+                if (model.resolve(f.module, t.value.func) or "").endswith("_decomposition.rl_orthogonal"):
+                    ok = True
+                else:
+                    other = t
+        k = f"{fshort}:{rule}:{nm}"
+        if not ok and other is not None:
+            obs.append(Ob(rule, k, ERROR, model.where(f, other), norm(other)[:80],
+                          f"the random train `{nm}` is re-bound together with its ranks by a routine this rule does not know: whether it establishes "
+                          "rz[k] <= N[k]*rz[k+1] is not decided"))
+            continue
+        obs.append(Ob(rule, k, OK if ok else VIOLATED, model.where(f, s), norm(s)[:80],
+                      f"the random train `{nm}` is right-orthogonalised (cores and ranks re-bound together) before the sweeps" if ok else
+                      f"the random train `{nm}` enters the sweeps as drawn: the first half sweep QR-factors its cores one by one and shrinks a rank "
+                      "whenever rz[k] > N[k]*rz[k+1] (small trailing modes) without carrying the R factor to the neighbouring core - the next "
+                      "reshape then fails (RuntimeError for valid systems); rl_orthogonal establishes rz[k] <= N[k]*rz[k+1] beforehand"))
+    return obs
